@@ -195,3 +195,30 @@ fn nested_static_left(l: &Expr) -> bool {
         _ => false,
     }
 }
+
+/// known finding C06 "interp-tostring-order": an interpolated string in which a value that may
+/// be an object (a bare name) is followed by a later value containing a call
+pub fn has_interp_tostring_order(b: &Block) -> bool {
+    let mut found = false;
+    walk_block(b, &mut |n| {
+        if let Node::Expr { e: Expr::Interp(segs), .. } = n {
+            let exprs: Vec<&Expr> = segs.iter().filter_map(|s| if let InterpSeg::Expr(e) = s { Some(e) } else { None }).collect();
+            for (i, e) in exprs.iter().enumerate() {
+                if matches!(e, Expr::Name(_)) && exprs[i + 1..].iter().any(|l| contains_call(l)) {
+                    found = true;
+                }
+            }
+        }
+    });
+    found
+}
+
+pub fn contains_call(e: &Expr) -> bool {
+    let mut c = false;
+    walk_expr(e, false, &mut |n| {
+        if let Node::Expr { e: Expr::Call { .. } | Expr::MethodCall { .. }, .. } = n {
+            c = true;
+        }
+    });
+    c
+}
